@@ -44,7 +44,7 @@ def strategy(tier):
         spec, focus = draw(gen.specs_and_focus(opts, 10))
         rec = draw(gen.recipes(spec, max_rows=8, reload_ok=False, focus=focus, inf_weights=True))
         return {"spec": spec, "state": rec, "site": draw(st.integers(0, 10**6)), "as_string": draw(st.booleans()),
-                "prefer": draw(st.sampled_from((None, None, None, None, "typetag", "container")))}
+                "prefer": draw(st.sampled_from((None, None, None, None, "typetag", "container", "negative")))}
 
     return cases()
 
@@ -62,9 +62,11 @@ def check(case):
     ss = jsonmut.sites(doc)
     prefer = case.get("prefer")
     if prefer:
-        # (type tags and child containers are few among the sites of a document: a sixth of the cases each mutate one)
+        # (type tags and child containers are few among the sites of a document: a seventh of the cases each mutate one, another seventh make one fragment's count negative)
         if prefer == "typetag":
             sub = [x for x in ss if x[1] == "set" and isinstance(x[2], (list, tuple)) and x[2][1] == jsonmut.UNKNOWN_TYPE]
+        elif prefer == "negative":  # one site per fragment: its count made negative
+            sub = [x for x in ss if x[1] == "set" and isinstance(x[2], (list, tuple)) and isinstance(x[2][1], float) and x[2][1] < 0]
         else:  # "container": the list / map that holds the children is replaced as a whole
             sub = [x for x in ss if x[1] == "set" and isinstance(x[2], (list, tuple)) and x[2][0] in ("data", "bins", "values") and not isinstance(x[0][-1] if x[0] else None, int)]
         ss = sub or ss
